@@ -110,7 +110,7 @@ theorem transferOne_md_intact (m0 : MetaData) (k : Bytes) (env : Env) (c : Call)
   intro t' c' ⟨⟨t, x, A1, _, _, hpres, hdec, hx, hA1, hf, hts⟩, hnonce, hS'⟩
   obtain ⟨hmdsome, hnon⟩ := hnonce t hdec
   have hnum : NumOK t := decToken_num _ _ hdec
-  have hmdt : ∀ md, t.md = some md → md.nonce ≠ 0 := fun md hmd => hI.mdpos _ _ t md hpres hdec hmd
+  have hmdt : ∀ md, t.md = some md → md.nonce ≠ 0 := fun md hmd => hI.mdpos _ _ t md (tokKey_nft _ _) hpres hdec hmd
   have hk : mdNonce t = n := by
     cases hm : t.md with
     | none =>
